@@ -79,6 +79,7 @@ type Engine struct {
 	verifInitDone map[*ssa.Package]bool
 	tolerant    int // >0 while executing package init code
 	selectN     int
+	feasBudget  float64
 	onlyVerifInit bool
 	hookDepth, hookLimit int
 	abstractBig bool
@@ -1157,6 +1158,9 @@ func (e *Engine) logShadow(fr *frame, ins ssa.Instruction, g *Term) {
 
 // worthAsking throttles solver feasibility queries at loop headers when they rarely prune anything.
 func (e *Engine) worthAsking(iter int) bool {
+	if e.feasSecs > e.feasBudget {
+		return false // budget for pruning queries used up: loops then end at their unwinding bound or by folding
+	}
 	if e.feasN >= 40 && e.feasCut*20 < e.feasN {
 		return iter >= 4 && iter%4 == 0
 	}
